@@ -205,7 +205,7 @@ theorem applySchemaDefs_dirs_eq {st : LState} {l : List SchemaDef} {r r' : Roots
 theorem loaded_run {sd : SchemaDoc} {s : Schema} (h : load sd = .ok s) :
     ∃ st r1 d1, Facts sd s st r1 d1 ∧ validateTypeDefinitions st = .pass ∧ validateDirectiveDefinitions st = .pass ∧
       validateDirectives st d1 locSchema none = .pass ∧ d1 = (sd.schema ++ sd.schemaExt).flatMap (·.dirs) := by
-  obtain ⟨st, r0, d0, r1, d1, hb, _, h0, h1, ht, hd, hs⟩ := load_ok_inv h
+  obtain ⟨st, r0, d0, r1, d1, hb, _, h0, h1, ht, hd, hs, hk⟩ := load_ok_inv' h
   obtain ⟨hti, hdi, hrel⟩ := buildState_inv hb
   have hr0 := applySchemaDefs_ok hti (r := noRoots) (acc := [])
     ⟨by simp [noRoots], by simp [noRoots], by simp [noRoots]⟩ (by simp [SchemaDirsOK]) h0
@@ -213,7 +213,7 @@ theorem loaded_run {sd : SchemaDoc} {s : Schema} (h : load sd = .ok s) :
   have hnil : validateDirectives st [] locSchema none = .pass := rfl
   have hd1 : d1 = (sd.schema ++ sd.schemaExt).flatMap (·.dirs) := by
     rw [applySchemaDefs_dirs_eq h1, applySchemaDefs_dirs_eq h0]; simp
-  refine ⟨st, r1, d1, ⟨hs, hb, hti, hdi, hrel, ?_, ?_, ?_, hr1.2⟩, ht, hd,
+  refine ⟨st, r1, d1, ⟨hs, hb, hti, hdi, hrel, ?_, ?_, ?_, hr1.2, hk⟩, ht, hd,
     applySchemaDefs_dirs_pass h1 (applySchemaDefs_dirs_pass h0 hnil), hd1⟩
   · intro p hp
     exact validateTypeDefinitions_pass ht p.1 p.2 (lookup_of_mem_nodup hti.1 hp)
